@@ -84,7 +84,11 @@ type caseSpec struct {
 	impostor bool   // stdlib SCRAM server that accepts any proof and forges the server signature
 	wrongCreds bool // the credential table says the pair is wrong (after normalisation)
 	addr     string // address to dial ("" = broker1:9092); a non-numeric port makes splitHostPortNumber fail
+	tlsFail  bool   // the peer answers the ClientHello with something that is not TLS: the dial must fail and close its socket
+	tls      bool   // Dialer.TLS / Transport.TLS set: the fake broker sits behind TLS and notes what reaches its socket first
 }
+
+var errHung = errors.New("hung: the dial did not return within 2 s (its time limit was 400 ms)")
 
 func (c caseSpec) address() string {
 	if c.addr == "" {
@@ -229,6 +233,22 @@ func serve(conn net.Conn, c caseSpec, lg *connLog) {
 			lg.addEnv("IOERR")
 			conn.Write([]byte{0xff, 0xff, 0xff, 0xff})
 			return false
+		case "silent":
+			// the broker stops answering and keeps the connection open: the pending read of the client can only end by
+			// the dial's own time limit.  Watch for 2.5 s whether the client closes its end.
+			lg.addEnv("IOERR")
+			conn.SetReadDeadline(time.Now().Add(2500 * time.Millisecond))
+			buf := make([]byte, 4096)
+			for {
+				if _, err := conn.Read(buf); err != nil {
+					var ne net.Error
+					if errors.As(err, &ne) && ne.Timeout() {
+						idleExit = true // the client never closed: `closed` stays false
+					}
+					break
+				}
+			}
+			return true
 		case "badid":
 			lg.addEnv("IOERR")
 			b := append([]byte(nil), good...)
@@ -431,6 +451,9 @@ func errClass(err error) string {
 	if strings.HasPrefix(err.Error(), "panic: ") {
 		return "panic"
 	}
+	if errors.Is(err, errHung) {
+		return "hung"
+	}
 	var ke kafka.Error
 	if errors.As(err, &ke) {
 		return fmt.Sprintf("err:kafka:%d", int(ke))
@@ -463,7 +486,11 @@ func runCase(c caseSpec) (res caseResult, skip string) {
 		res.logs = append(res.logs, lg)
 		cur = lg
 		mu.Unlock()
-		go serve(sv, c, lg)
+		if c.tls {
+			go serveTLS(sv, c, lg)
+		} else {
+			go serve(sv, c, lg)
+		}
 		return cl, nil
 	}
 	var mech sasl.Mechanism
@@ -486,6 +513,12 @@ func runCase(c caseSpec) (res caseResult, skip string) {
 
 	if c.path == "dialer" {
 		d := &kafka.Dialer{DialFunc: dial, SASLMechanism: mech, ClientID: "c18"}
+		if c.failKind == "silent" {
+			d.Timeout = 400 * time.Millisecond
+		}
+		if c.tls {
+			d.TLS = clientTLS()
+		}
 		var conn *kafka.Conn
 		var err error
 		func() {
@@ -495,7 +528,26 @@ func runCase(c caseSpec) (res caseResult, skip string) {
 					err = fmt.Errorf("panic: %v", p)
 				}
 			}()
-			conn, err = d.DialContext(ctx, "tcp", c.address())
+			if c.failKind != "silent" {
+				conn, err = d.DialContext(ctx, "tcp", c.address())
+				return
+			}
+			// the dial has 400 ms (Dialer.Timeout); it gets 2 s before the harness calls it hung
+			type dialRes struct {
+				conn *kafka.Conn
+				err  error
+			}
+			ch := make(chan dialRes, 1)
+			go func() {
+				cn, e := d.DialContext(ctx, "tcp", c.address())
+				ch <- dialRes{cn, e}
+			}()
+			select {
+			case r := <-ch:
+				conn, err = r.conn, r.err
+			case <-time.After(2 * time.Second):
+				err = errHung
+			}
 		}()
 		res.final = errClass(err)
 		if err == nil {
@@ -518,6 +570,15 @@ func runCase(c caseSpec) (res caseResult, skip string) {
 	}
 
 	tr := &kafka.Transport{Dial: dial, SASL: mech, MetadataTTL: 24 * time.Hour, ClientID: "c18"}
+	if c.failKind == "silent" {
+		tr.DialTimeout = 400 * time.Millisecond
+		var cancel2 context.CancelFunc
+		ctx, cancel2 = context.WithTimeout(ctx, 1200*time.Millisecond)
+		defer cancel2()
+	}
+	if c.tls {
+		tr.TLS = clientTLS()
+	}
 	addr := kafka.TCP(c.address())
 	_, err := tr.RoundTrip(ctx, addr, &findcoordinator.Request{Key: "g"})
 	res.final = errClass(err)
@@ -565,6 +626,12 @@ func emitCase(c caseSpec, res caseResult) {
 			cl = 1
 		}
 		path := c.path
+		if c.tls {
+			path += "+tls"
+		}
+		if c.tlsFail {
+			path += "+nohs"
+		}
 		if c.addr != "" {
 			path += "!addr"
 		}
@@ -572,6 +639,9 @@ func emitCase(c caseSpec, res caseResult) {
 		expect := "any"
 		if c.failAt == "" && c.mechFail < 0 && c.addr == "" && c.user == c.srvUser && c.pass == c.srvPass && !(c.hs != nil && c.hs[1] < 0 && c.path == "dialer") && !c.wrongCreds {
 			expect = "ok"
+		}
+		if c.tlsFail {
+			expect = "err" // no TLS on the other side: the dial must fail
 		}
 		if c.impostor && c.failAt == "" && c.mechFail < 0 && c.addr == "" {
 			// mutual authentication: a forged server signature must make the dial fail
@@ -651,6 +721,37 @@ func main() {
 			cases = append(cases, caseSpec{path: path, hs: hsChoices[0], au: hsChoices[0], mech: "plain", user: "u", pass: "p", srvUser: "u", srvPass: "p", mechFail: -1, addr: a})
 		}
 	}
+	// a broker that falls silent in the middle of the set-up and keeps the connection open: the dial must end by its
+	// own time limit (Dialer.Timeout / Transport.DialTimeout = 400 ms), with an error and the connection closed
+	for _, path := range []string{"dialer", "transport"} {
+		for _, hs := range hsChoices {
+			for _, at := range []string{"versions", "handshake", "auth1", "auth2"} {
+				m := "plain"
+				if at == "auth2" {
+					m = "scram256"
+				}
+				cases = append(cases, caseSpec{path: path, hs: hs, au: hsChoices[0], mech: m, user: "bob", pass: "pw", srvUser: "bob", srvPass: "pw",
+					mechFail: -1, failAt: at, failKind: "silent", refSrv: "xdg"})
+			}
+		}
+	}
+	// behind TLS (Dialer.TLS / Transport.TLS): the broker notes what reaches its raw socket first
+	for _, path := range []string{"dialer", "transport"} {
+		for _, hs := range hsChoices {
+			for _, m := range []string{"plain", "scram256", "steps"} {
+				cases = append(cases, caseSpec{path: path, hs: hs, au: hsChoices[0], mech: m, user: "alice", pass: "s3cret", srvUser: "alice", srvPass: "s3cret",
+					steps: 2, mechFail: -1, refSrv: "xdg", tls: true})
+			}
+			cases = append(cases,
+				caseSpec{path: path, hs: hs, au: hsChoices[0], mech: "plain", user: "alice", pass: "wrong", srvUser: "alice", srvPass: "s3cret", mechFail: -1, badCreds: "code", wrongCreds: true, tls: true},
+				caseSpec{path: path, hs: hs, au: hsChoices[0], mech: "plain", user: "bob", pass: "pw", srvUser: "bob", srvPass: "pw", mechFail: -1, failAt: "handshake", failKind: "code", tls: true},
+				caseSpec{path: path, hs: hs, au: hsChoices[0], mech: "steps", steps: 3, mechFail: 0, tls: true})
+		}
+		cases = append(cases, caseSpec{path: path, hs: hsChoices[0], au: hsChoices[0], mech: "plain", user: "u", pass: "p", srvUser: "u", srvPass: "p", mechFail: -1, tls: true, tlsFail: true},
+			caseSpec{path: path, hs: hsChoices[0], au: hsChoices[0], mech: "none", mechFail: -1, tls: true, tlsFail: true})
+		cases = append(cases, caseSpec{path: path, hs: hsChoices[0], au: hsChoices[0], mech: "none", mechFail: -1, tls: true},
+			caseSpec{path: path, hs: hsChoices[0], au: hsChoices[0], mech: "plain", user: "u", pass: "p", srvUser: "u", srvPass: "p", mechFail: -1, addr: "broker1:kafka", tls: true})
+	}
 	_ = thorough
 	leaks := 0
 	for _, c := range cases {
@@ -662,7 +763,7 @@ func main() {
 			continue
 		}
 		for i := range res.results {
-			if res.results[i] != "ok" && !res.closed[i] {
+			if res.results[i] != "ok" && !res.closed[i] && c.failKind != "silent" {
 				leaks++
 			}
 		}
